@@ -19,8 +19,8 @@ type fieldEvent struct {
 	Derived bool
 	// NilTest: the access is an operand of a comparison with nil (a presence test, not output)
 	NilTest bool
-	Via    string    // for indirect accesses: the function in which the field is touched
-	Panic  bool      // the access occurs inside the argument of a panic(...) call (diagnostics only)
+	Via     string // for indirect accesses: the function in which the field is touched
+	Panic   bool   // the access occurs inside the argument of a panic(...) call (diagnostics only)
 }
 
 type subjKey struct {
